@@ -115,7 +115,8 @@ def smoke_cases(tier, base):
 def stress_cases(tier, base):
     """free-running in-process replicas under contention: goroutine-level races of twopc.go (the driver-stepped
     cases cannot interleave inside a function); an assertion failure kills the harness and is reported as a crash"""
-    spec = [(3, 2500)] if tier == "quick" else [(3, 15000), (5, 15000), (2, 8000)]
+    spec = [(3, 1200), (4, 600), (6, 600), (3, 300), (5, 300)] if tier == "quick" else \
+        [(3, 15000), (5, 15000), (2, 8000)] + [(n, 400) for n in (3, 4, 5, 6, 3, 4, 5, 6, 7, 3)]
     return [{"id": base + i, "kind": "stress", "n": n, "init": 0, "writers": list(range(n)), "deadline_ms": ms}
             for i, (n, ms) in enumerate(spec)]
 
@@ -131,6 +132,10 @@ def stress_oracle(c, r):
     bad = [(i, s["ver"], s["old"]) for i, s in enumerate(f["snaps"]) if s["old"] != c["init"] + s["ver"]]
     if bad:
         fails.append(("stress-lost-update", "every commit adds one to the value it read, so version k must hold init+k; (replica, version, value) = %s" % bad[:4]))
+    if f["finished"] and not f.get("settled", True):
+        stuck = [(i, s["ver"], s["tpc"]) for i, s in enumerate(f["snaps"]) if s["tpc"] != "initial" or s["ver"] < f.get("total", 0)]
+        fails.append(("replica-never-released", "all proposers returned (%d commits) but 5 s later not every replica is at the final version "
+                      "with no pre-commit held: (replica, version, 2PC state) = %s" % (f.get("total", 0), stuck[:5])))
     top = max(s["ver"] for s in f["snaps"])
     if top != total and not fails:
         fails.append(("stress-version-count", "%d commits returned but the highest version is %d" % (total, top)))
